@@ -61,6 +61,7 @@ func httpServeContent(w http.ResponseWriter, r *http.Request, modtime time.Time,
 
 	// handle Content-Range header.
 	sendSize := size
+	sendStart := int64(0)
 	ranges, err := parseRange(rangeReq, size)
 	switch err {
 	case nil:
@@ -103,8 +104,22 @@ func httpServeContent(w http.ResponseWriter, r *http.Request, modtime time.Time,
 		// multipart responses."
 
 		sendSize = ra.length
+		sendStart = ra.start
 		code = http.StatusPartialContent
 		w.Header().Set("Content-Range", ra.contentRange(size))
+	}
+
+	// The caller positioned content from the first range of the raw Range
+	// header, parsed without knowing the size and before the preconditions
+	// were evaluated. The part selected above can start elsewhere (If-Range
+	// did not match, the first range was skipped, or the ranges were ignored),
+	// so make sure a seekable content starts where the body starts.
+	if seeker, ok := content.(io.Seeker); ok && r.Method != http.MethodHead {
+		if _, err := seeker.Seek(sendStart, io.SeekStart); err != nil {
+			w.Header().Del("Content-Range")
+			http.Error(w, "could not seek to the start of the response body: "+err.Error(), http.StatusInternalServerError)
+			return
+		}
 	}
 
 	w.Header().Set("Accept-Ranges", "bytes")
